@@ -149,7 +149,7 @@ func c09Zoo() []zooEntry {
 	return append(zoo, c09DeepPointerEntries()...)
 }
 
-var c09Lits = []string{"abc", "5", "1.5", "true", "", "1e999", "99999999999999999999", "-1", "(", "0x5", "NaN", "k", "1", "18446744073709551615", "1e39", "-9223372036854775809"}
+var c09Lits = []string{"abc", "5", "1.5", "true", "", "1e999", "99999999999999999999", "-1", "(", "0x5", "NaN", "k", "1", "18446744073709551615", "1e39", "-9223372036854775809", "0.00000000000000000000001", "1." + strings.Repeat("0", 40) + "1", "-0." + strings.Repeat("0", 30) + "5", "5e-30", strings.Repeat("9", 30) + ".5", "-1", "0x7fffffffffffffff"}
 
 // c09Exprs lists the expressions applied to a zoo value reachable as `v`
 // (depth 1), and the ones applied with the value as the datum itself.
